@@ -35,6 +35,8 @@ def classify(path):
     if path.startswith("core::panicking::") or path.startswith("std::rt::") or "begin_panic" in path:
         return "diverges"
     last = "::" + path.split("::")[-1]
+    if path in ("std::iter::repeat", "std::iter::repeat_n", "std::iter::repeat_with", "core::iter::repeat"):
+        return "harmless"  # the iterator constructors, not [T]::repeat / str::repeat (which allocate and can overflow)
     if last in PANICKY_SUFFIX and not (path.startswith("pyo3::") or path.startswith("<pyo3::") or "pyo3::types::" in path):
         return None
     for p in HARMLESS_PREFIX:
@@ -355,6 +357,21 @@ def m_iter_adapter(ctx):
     if it_get(it, "kind") == "range" and name not in ("map", "copied", "cloned", "inspect", "enumerate", "peekable", "fuse", "by_ref"):
         # a filtered / skipped range still yields values of the range; next() of the adapter cannot narrow it further
         return [ctx.ret(it_with(it, kind="range-sub"))]
+    if name == "skip" and it_get(it, "count") is not None and it_get(it, "base") is not None and len(ctx.args) > 1 and not it_get(it, "enum"):
+        # skip(n) over a slice iterator drops k = min(n, count) leading elements: the end (off + count) stays where it was
+        c = it_get(it, "count")
+        n = ctx.eng.as_lin(ctx.st, ctx.args[1])
+        off = it_get(it, "off") or Lin.const(0)
+        if n is not None and isinstance(c, Lin):
+            if ctx.eng.holds(ctx.st, ("le", n - c), True):
+                k = n
+            elif ctx.eng.holds(ctx.st, ("le", c - n), True):
+                k = c
+            else:
+                k = Lin.sym(ctx.eng.new_sym("skip", 0, ISIZE_MAX))
+                ctx.st.add(k - n)
+                ctx.st.add(k - c)
+            return [ctx.ret(it_with(it, off=off + k, count=c - k, kind="adapter"))]
     if name in ("filter", "skip_while", "take_while", "filter_map", "skip", "step_by"):
         c = it_get(it, "count")
         if c is not None:
@@ -416,6 +433,13 @@ def m_into_iter(ctx):
             L = eng.len_field(st, v[1])
             return [ctx.ret(("iter", (("count", L), ("kind", "vec"))))]
     if v[0] in ("slice", "ptr"):
+        # `for x in &s[a..b]`: the iterator keeps the slice's base and offset (the extent rule follows reads through it)
+        try:
+            base, off, L = slice_parts(ctx, 0)
+        except Exception:
+            base, off, L = None, None, None
+        if L is not None and base is not None:
+            return [ctx.ret(("iter", (("base", base), ("count", L), ("kind", "slice"), ("off", off))))]
         L = eng.slice_len(st, ctx.fr, v, t)
         if L is not None:
             return [ctx.ret(("iter", (("count", L), ("kind", "slice"))))]
@@ -446,7 +470,10 @@ def m_next(ctx):
                 some.add(lo - x)
                 some.add(x - hi + 1)
                 some.env[ppath] = V_int(x)
-                if ipath is not None and kind == "range":
+                # the consumed part is written back for the iterator adaptors that were always modelled; for a plain
+                # `for k in a..b` (Range::next) the range is left as it is - k stays within [a, b) either way, and a
+                # loop-carried bound that moves on every visit costs a template join per visit for nothing
+                if ipath is not None and kind == "range" and not ctx.path.startswith("std::iter::range::<impl"):
                     some.env[ipath] = it_with(it, hi=x) if it_get(it, "rev") else it_with(it, lo=x + 1)
                 if kind == "range":
                     none.add(hi - lo)
@@ -719,6 +746,25 @@ def m_saturating_sub(ctx):
     f = eng.fresh_int(ctx.dty, "sat")
     if a is not None:
         st.add(f - a)
+    return [ctx.ret(V_int(f))]
+
+
+def m_next_multiple_of(ctx):
+    """x.next_multiple_of(k), k a positive constant: the least multiple of k that is >= x (panics on overflow in debug builds)."""
+    eng, st = ctx.eng, ctx.st
+    a, b = eng.as_lin(st, ctx.args[0]), eng.as_lin(st, ctx.args[1])
+    f = eng.fresh_int(ctx.dty, "nmo")
+    r = ty_range(ctx.dty)
+    if a is not None and b is not None and b.is_const() and b.c > 0:
+        k = b.c
+        if r is not None:
+            ctx.oblige(("le", a + (k - 1) - r[1]), "overflow:Add", "overflow-checks")
+        st.add(a - f)
+        st.add(f - a - (k - 1))
+        if f.t and len(f.t) == 1:
+            st.mod[f.t[0][0]] = (k, 0)
+    elif b is not None and b.is_const() and b.c <= 0:
+        ctx.oblige(("const", False), "div-by-zero", "always", "next_multiple_of(0) panics")
     return [ctx.ret(V_int(f))]
 
 
@@ -998,11 +1044,17 @@ def lookup(path, c):
     last = path.split("::")[-1]
     if path.endswith("as std::iter::Iterator>::next") or path.endswith("as std::iter::DoubleEndedIterator>::next_back"):
         return m_next
+    if path.startswith("std::iter::range::<impl std::iter::Iterator for std::ops::Range<") and last == "next":
+        return m_next
+    if last == "into_iter" and path.startswith("core::slice::iter::<impl std::iter::IntoIterator for &"):
+        return m_into_iter
     if path.startswith("core::num::<impl ") or path.startswith("std::num::<impl ") or path.startswith("core::num::"):
         if last.startswith("wrapping_") or last.startswith("overflowing_") or last in ("swap_bytes", "rotate_left", "rotate_right", "count_ones", "leading_zeros", "trailing_zeros", "reverse_bits"):
             return m_wrapping
         if last == "saturating_sub":
             return m_saturating_sub
+        if last == "next_multiple_of":
+            return m_next_multiple_of
         if last in ("checked_add", "checked_sub", "checked_mul"):
             return m_checked
         if last.startswith("to_") and last.endswith("_bytes"):
